@@ -278,6 +278,25 @@ mod image_interop {
     }
 }
 
+/// An element type that implements the three approx traits and nothing else (no arithmetic, no Neg, no Float): the approx impls of
+/// vectors, matrices and quaternions must keep accepting it - a narrowed impl bound is an API break that shows as a build failure of
+/// this program in every configuration.
+#[derive(Clone, Copy, Debug, PartialEq)]
+struct Tol(i32);
+impl AbsDiffEq for Tol { type Epsilon = i32; fn default_epsilon() -> i32 { 1 } fn abs_diff_eq(&self, o: &Tol, e: i32) -> bool { (self.0 - o.0).abs() <= e } }
+impl RelativeEq for Tol { fn default_max_relative() -> i32 { 2 } fn relative_eq(&self, o: &Tol, e: i32, m: i32) -> bool { (self.0 - o.0).abs() <= e.max(m) } }
+impl UlpsEq for Tol { fn default_max_ulps() -> u32 { 3 } fn ulps_eq(&self, o: &Tol, e: i32, u: u32) -> bool { (self.0 - o.0).abs() <= e.max(u as i32) } }
+fn approx_on_a_minimal_element() {
+    let (a, b) = (Vec4::new(Tol(0), Tol(10), Tol(20), Tol(30)), Vec4::new(Tol(1), Tol(12), Tol(23), Tol(30)));
+    p("tol vec4", ((a.abs_diff_eq(&b, 2), a.abs_diff_eq(&b, 3)), (a.relative_eq(&b, 0, 2), a.relative_eq(&b, 0, 3)), (a.ulps_eq(&b, 0, 2), a.ulps_eq(&b, 0, 3)), (Vec4::<Tol>::default_epsilon(), Vec4::<Tol>::default_max_relative(), Vec4::<Tol>::default_max_ulps())));
+    let (q, r) = (Quaternion { x: Tol(0), y: Tol(-10), z: Tol(20), w: Tol(-30) }, Quaternion { x: Tol(0), y: Tol(10), z: Tol(-20), w: Tol(30) });
+    p("tol quaternion", ((q.abs_diff_eq(&q, 0), q.abs_diff_eq(&r, 19), q.abs_diff_eq(&r, 60)), (q.relative_eq(&r, 0, 59), q.relative_eq(&r, 60, 0)), (q.ulps_eq(&q, 0, 0), q.ulps_eq(&r, 0, 59), q.ulps_eq(&r, 0, 60)), Quaternion::<Tol>::default_max_ulps()));
+    let m = Mat3::new(Tol(0), Tol(1), Tol(2), Tol(3), Tol(4), Tol(5), Tol(6), Tol(7), Tol(8)); let n = Mat3::new(Tol(0), Tol(1), Tol(2), Tol(3), Tol(4), Tol(9), Tol(6), Tol(7), Tol(8));
+    p("tol mat3", ((m.abs_diff_eq(&n, 3), m.abs_diff_eq(&n, 4)), (m.relative_eq(&n, 3, 3), m.relative_eq(&n, 0, 4)), (m.ulps_eq(&n, 3, 3), m.ulps_eq(&n, 4, 0))));
+    let rm = vek::mat::repr_c::row_major::Mat2::new(Tol(0), Tol(1), Tol(2), Tol(3)); let rn = vek::mat::repr_c::row_major::Mat2::new(Tol(0), Tol(1), Tol(5), Tol(3));
+    p("tol row mat2", (rm.abs_diff_eq(&rn, 2), rm.abs_diff_eq(&rn, 3), rm.relative_eq(&rn, 0, 3), rm.ulps_eq(&rn, 0, 2)));
+}
+
 fn main() {
     // which configuration this binary was compiled for (checked by the driver against the requested one; not part of the comparison)
     let cfg: Vec<&str> = [("std", cfg!(feature = "std")), ("libm", cfg!(feature = "libm")), ("vec8", cfg!(feature = "vec8")), ("vec16", cfg!(feature = "vec16")), ("vec32", cfg!(feature = "vec32")), ("vec64", cfg!(feature = "vec64")),
@@ -290,6 +309,7 @@ fn main() {
     quaternions_and_transforms();
     ops();
     shapes_and_curves();
+    approx_on_a_minimal_element();
     #[cfg(all(feature = "image", any(feature = "rgb", feature = "rgba")))]
     image_interop::run();
     p("checked wrapping", (Vec2::new(250u8, 1).checked_add(&Vec2::new(5, 1)), Vec2::new(250u8, 1).wrapping_add(&Vec2::new(10, 1))));
